@@ -18,6 +18,7 @@ RULE = (
     '; pass 6: NNVariationalStrategy (VNNGP) against per-element replicas for batch ranks 1 and 2'
     '; pass 7: model lists whose members share modules; SVGP inputs that are the inducing points; one training step on a batch of SVGPs (gradients of the summed ELBO w.r.t. every batched parameter, state after an NGD / SGD step on natural, tril-natural, Cholesky and mean-field q(u)) against the replicas\' own steps'
     "; pass 8: batches evaluated (both modes) while their elements still hold identical defaults, before they diverge by training or by load_state_dict"
+    "; pass 9: model lists with more than ten members (positions of training data); batched inducing-point kernels with signal variances orders of magnitude apart against replicas"
 )
 REQUIRED = ["kernel_replica", "mean_replica", "likelihood_replica", "posterior_replica", "mll_replica", "svgp_replica", "kl_replica", "elbo_replica", "model_list_identical", "sum_mll_is_mean", "svgp_step_replica"]
 ASSUMPTIONS = ["the leave-one-out objective is compared element-wise wherever it evaluates; it refuses (explicit reshape error) parameters with more batch dimensions than the targets - counted under info:, not a violation (the statement names marginal log likelihood, ELBO and KL)", "replicas are built by slicing the batched object's state_dict: a tensor with batch dims (possibly size-1) is indexed with the element's index (0 on size-1 dims)"]
